@@ -751,3 +751,144 @@ def run_api_cxx(res, scratch, tier, seed, builds):
                 blk = r.get("block")
                 res.violation(abort_key(r) + ":c++", dict(r, block=[l for l in (blk or []) if l[:2] in ("B ", "c ", "f ", "s ", "d ", "p ", "x")], build=os.path.basename(bdir)))
         res.cov["traces_validated_against_impl"] += len(blocks)
+
+
+# ------------------------------------------------------------------ C11 (description text)
+def mcdescr_cfg(terms, nts, maxrules, maxrhs, maxlen, useerr, variants, styles, trees=True):
+    base = mcgram_cfg(terms, nts, maxrules, maxrhs, maxlen, useerr, variants, trees, invariants=("DEmit", "PrintedIsValid"))
+    base = base.replace("SPECIFICATION Spec", "SPECIFICATION DSpec").replace("INVARIANTS", "  Styles = {%s}\nINVARIANTS" % ",".join(map(str, styles)))
+    return base
+
+
+def check_C11(res, scratch, tier, seed):
+    builds = [build(scratch, "plain", ("yv_replay",)), build(scratch, "asan", ("yv_replay",))]
+    res.cov["trusted_base"] = TB
+    res.cov["rule"] = ("(1) every rule sequence of a small family x translation variants is printed by Descr!PrintDescr in 5 lexical styles (explicit codes; character "
+                       "constants; free codes from 256; tabs/comments/newlines, repeated declarations, omitted default cost and semicolons, alternatives with `|'; "
+                       "declarations after the rules); TLC checks that each text follows the manual's grammar (character-level Lex + DescrG through Deriv!IsSentence) and "
+                       "prints the text with the raw definition it denotes and that definition's expected observables; the object is defined FROM THE TEXT and must "
+                       "return the definition's result and behave like it on every input (which pins terminal codes, rules, translations and costs). "
+                       "(2) seeded character mutations and truncations of valid texts are judged by TLC (SyntaxOK) and must be refused with a documented code and "
+                       "a line number inside the text when they are not valid, on plain and ASan builds; non-trivial = texts with >= 1 rule and a translation or code clause")
+    matrix = [(1, 1, 0, 1, 3, 0), (0, 0, 0, 0, 3, 0), (2, 0, 1, 0, 3, 0)]
+    fams = [("D2", mcdescr_cfg([1, 2], [11], 2, 2, 3, False, [0, 3, 4, 5], [0, 1, 2, 3, 4])),
+            ("D1e", mcdescr_cfg([1, 2], [11, 12], 1, 3, 2, True, [1, 4, 7, 9], [0, 1, 3]))]
+    if tier == "thorough":
+        fams += [("D2b", mcdescr_cfg([1, 2], [11, 12], 2, 2, 3, False, [0, 1, 4, 5, 7, 8, 9], [0, 1, 2, 3, 4]))]
+    texts = []
+    for tag, cfg in fams:
+        t = run_tlc(scratch, "MCDescr", cfg, tag, timeout=3000)
+        if t["status"] == "violation":
+            res.violation("spec-invariant:" + tag, {"tlc_tail": t["tail"][-2500:]})
+        elif t["status"] != "ok":
+            raise Infra("TLC %s: %s\n%s" % (tag, t["status"], t["tail"][-3000:]))
+        res.add_tlc(t)
+        blocks, vecs = [], {}
+        for vec in tlc_vectors(t["out"]):
+            vec["trees_emitted"] = True
+            text = bytes(vec["text"])
+            vec["id"] = "%s-%s-s%d" % (tag, hashlib.sha1(text).hexdigest()[:10], vec["style"])
+            hx = text.hex()
+            b = blocks_from_vector(vec, matrix, codemap="dense", mems=(0, 1), text_hex=hx)
+            if b is None:
+                b = blocks_from_vector(vec, [], codemap="dense", define_only=True, text_hex=hx)
+            blocks.append(b)
+            vecs[vec["id"]] = vec
+            texts.append(text)
+            if any(r["an"] or r["t"] for r in vec["rules"]):
+                res.cov["distinct_nontrivial"] += 1
+            if len(res.cov["samples"]) < 3 and vec["style"] == 3 and len(vec["rules"]) == 2:
+                res.cov["samples"].append({"text": text.decode(), "denotes": {"terms": vec["terms"], "rules": [rule_line(r) for r in vec["rules"]]}})
+        res.notes.setdefault("families", []).append({"tag": tag, "texts": len(blocks), "tlc_distinct_states": t["distinct"]})
+        mine = lambda r: classify(dict(r)) if owner(r["what"], r["cfg"], r.get("calls", 0)) in ("C10", "C11", "C01", "C02", "C03", "C04", "C05", "C15") else None
+        for bdir in builds[:1] if tier == "quick" else builds:
+            recs, st = run_harness(os.path.join(bdir, "yv_replay"), blocks)
+            for r in recs:
+                if r.get("k") == "summary":
+                    res.cov["evaluations"] += r["parses"] + r["defs"]
+                elif r.get("k") == "mismatch":
+                    v = vecs.get(r.get("g")) or {}
+                    rec = dict(r, text=bytes(v.get("text", [])).decode(errors="replace"), denotes=[rule_line(x) for x in v.get("rules", [])], terms=v.get("terms"))
+                    key = classify(dict(r))
+                    if key.startswith("F"):
+                        res.notes["known_in_other_property"] = res.notes.get("known_in_other_property", 0) + 1
+                    else:
+                        res.violation("C11|text does not behave like the denoted definition: " + r["what"], rec)
+                elif r.get("e") == "Abort":
+                    res.violation(abort_key(r), dict(r, block=(r.get("block") or [])[:12]))
+            res.cov["traces_validated_against_impl"] += len(blocks)
+    # (2) mutations judged by TLC
+    rnd = random.Random(seed)
+    muts = []
+    alphabet = b" \n\t;:|#-()=/*'aT0_9Z%\x80\x01"
+    base = rnd.sample(texts, min(len(texts), 300 if tier == "quick" else 3000))
+    for tx in base:
+        for _ in range(3):
+            b = bytearray(tx)
+            kind = rnd.randrange(5)
+            pos = rnd.randrange(len(b)) if b else 0
+            if kind == 0 and b:
+                del b[pos]
+            elif kind == 1:
+                b.insert(pos, alphabet[rnd.randrange(len(alphabet))])
+            elif kind == 2 and b:
+                b[pos] = alphabet[rnd.randrange(len(alphabet))]
+            elif kind == 3:
+                b = b[:pos]                   # truncation
+            else:
+                b = b[:pos] + b[pos:pos + 4] + b[pos:]   # duplication of a fragment
+            if 0 in b:
+                continue
+            muts.append(bytes(b))
+    muts += [b"", b"'", b"/*", b"/", b"TERM", b"TERM;", b"a : 'x", b"a : # b 1 (", b"a:", b"a : b # 0 1;", b"TERM a = ;", b"a : 'x' ;\n" * 3 + b"$"]
+    # a few very long identifiers (error message buffer) 
+    muts += [b"TERM x;\n" + b"L" * n + b" : L ;\n" for n in (150, 199, 200, 201, 300, 1000)]
+    judged = judge_texts(res, scratch, muts)
+    blocks = []
+    meta = {}
+    for i, (tx, j) in enumerate(zip(muts, judged)):
+        gid = "mut%d" % i
+        meta[gid] = (tx, j)
+        allowed = "0,4,5,6,7,8,9,10,11,12,13,14,15,16" if j["ok"] else "3,4,5,6,7,8,9,10,11,12,13,14,15,16"
+        blocks.append(["G " + gid, "DT 0 %s %s" % (allowed, tx.hex())])
+    for bdir in builds:
+        recs, st = run_harness(os.path.join(bdir, "yv_replay"), blocks)
+        for r in recs:
+            if r.get("k") == "summary":
+                res.cov["evaluations"] += r["defs"]
+            elif r.get("k") == "synerr":
+                tx, j = meta[r["g"]]
+                m = re.search(r"ln (\d+)", r["msg"])
+                if not m or not (1 <= int(m.group(1)) <= j["lines"]):
+                    res.violation("C11|syntax error message does not name a line inside the text", dict(r, text=tx.decode(errors="replace"), lines=j["lines"]))
+            elif r.get("k") == "mismatch":
+                tx, j = meta.get(r.get("g"), (b"", {}))
+                key = "C11|" + r["what"] + (" (text follows the manual's syntax)" if j.get("ok") else " (text does not follow the manual's syntax)")
+                if r["what"] == "definition return code" and not j.get("ok") and j.get("okext") and r.get("got") == "0":
+                    key = "F24-anode-without-parentheses"
+                res.violation(key, dict(r, text=tx.decode(errors="replace"), judged=j, build=os.path.basename(bdir)))
+            elif r.get("e") == "Abort":
+                blk = r.get("block") or []
+                g = blk[0][2:] if blk else None
+                tx, j = meta.get(g, (b"", {}))
+                res.violation(abort_key(r), dict(r, text=tx.decode(errors="replace"), block=blk[:2], build=os.path.basename(bdir)))
+        res.cov["traces_validated_against_impl"] += len(blocks)
+    res.notes["mutated_texts"] = len(muts)
+    res.notes["mutated_texts_valid"] = sum(1 for j in judged if j["ok"])
+
+
+def judge_texts(res, scratch, texts):
+    """TLC decides for each text whether it follows the documented syntax (Descr!SyntaxOK), also with the
+    recorded extension, and how many lines it has."""
+    path = scratch.path("texts.json")
+    with open(path, "w") as f:
+        json.dump([list(t) for t in texts], f)
+    cfg = "SPECIFICATION JSpec\nINVARIANT JEmit\nCHECK_DEADLOCK FALSE\n"
+    t = run_tlc(scratch, "MCDescrJudge", cfg, "judge", timeout=3000, env={"TEXTS": path})
+    if t["status"] != "ok":
+        raise Infra("TLC judge: %s\n%s" % (t["status"], t["tail"][-3000:]))
+    res.add_tlc(t)
+    out = {}
+    for v in tlc_vectors(t["out"]):
+        out[v["i"]] = v
+    return [out[i + 1] for i in range(len(texts))]
